@@ -68,7 +68,7 @@ PLayer ==
                    ms == MergeQ({nodes[k].q : k \in drop})
                    rec == {k \in keep : nodes[k].q = ms}
                    mk == IF rec # {} THEN CHOOSE k \in rec : TRUE ELSE KeyM(d, ms)
-                   redir == {[from |-> e.from, to |-> mk, dec |-> e.dec, cost |-> e.cost] : e \in {f \in edges : f.to \in drop}}
+                   redir == {[from |-> e.from, to |-> mk, dec |-> e.dec, cost |-> RelaxCost(I, d, nodes[e.to].q, ms, e.cost)] : e \in {f \in edges : f.to \in drop}}
                    allIn == (IF rec # {} THEN {e \in edges : e.to = mk} ELSE {}) \cup redir
                    mvNew == IF redir = {} THEN NegInf ELSE Max({nodes[e.from].val + e.cost : e \in redir})
                    keepsOld == rec # {} /\ nodes[mk].val > mvNew
